@@ -35,6 +35,7 @@ class Registry:
         self.sqrt_cache = {}
         self.ind_cache = {}
         self.trig_cache = {}
+        self.trig_args = []
         self.fn_cache = {}
         self.key2poly = {}
         self.inputs = []          # atom indices that are free inputs
@@ -64,10 +65,10 @@ class Registry:
                 self.uf[rj] = r
         return r
 
-    def add_axiom(self, ax):
+    def add_axiom(self, ax, at=None):
         self.axioms.append(ax)
         if self.axiom_sink is not None:
-            self.axiom_sink(ax)
+            self.axiom_sink(ax, at)
 
     def new_atom(self, name, kind, data=None, fe=None, z=None, positive=False, nonneg=False, deps=()):
         idx = len(self.atoms)
@@ -236,9 +237,13 @@ class SB:
         return o + self.as_sr()
 
     def __mul__(self, o):
+        if isinstance(o, (SB, bool, _np.bool_)):
+            return self & o          # numpy: bool * bool is logical and
         return self.as_sr() * o
 
     def __rmul__(self, o):
+        if isinstance(o, (SB, bool, _np.bool_)):
+            return self & o
         return o * self.as_sr()
 
     def __sub__(self, o):
@@ -1135,8 +1140,26 @@ def trig(x: SR):
     ca = REG.new_atom(f"cos!{len(REG.atoms)}", "cos", data=x, fe=lambda env, x=x: math.cos(x.feval(env)), deps=x.atomset())
     sa = REG.new_atom(f"sin!{len(REG.atoms)}", "sin", data=x, fe=lambda env, x=x: math.sin(x.feval(env)), deps=[ca.idx])
     REG.uninterpreted += 1
-    REG.add_axiom(ca.z * ca.z + sa.z * sa.z == 1)
+    REG.add_axiom(ca.z * ca.z + sa.z * sa.z == 1, sa.idx)
+    REG.add_axiom(ca.z * ca.z + sa.z * sa.z == 1, ca.idx)
     r = (SR.atom(ca.idx), SR.atom(sa.idx))
+    # congruence with earlier phases (cos/sin are functions): x == y -> same pair, x == -y -> mirrored pair
+    if ENGINE is not None and ENGINE.o.get("trig_congruence", True) and len(REG.trig_args) <= 48:
+        for (y, cy, sy) in REG.trig_args:
+            if not (x.atomset() & y.atomset()):
+                continue
+            e1 = x == y
+            if isinstance(e1, SB):
+                REG.union([sa.idx, *x.atomset(), *y.atomset(), cy, sy])
+                ax = z3.Implies(e1.z, z3.And(ca.z == REG.atoms[cy].z, sa.z == REG.atoms[sy].z))
+                REG.add_axiom(ax, sa.idx)
+                REG.add_axiom(ax, ca.idx)
+            e2 = x == -y
+            if isinstance(e2, SB):
+                ax = z3.Implies(e2.z, z3.And(ca.z == REG.atoms[cy].z, sa.z == -REG.atoms[sy].z))
+                REG.add_axiom(ax, sa.idx)
+                REG.add_axiom(ax, ca.idx)
+    REG.trig_args.append((x, ca.idx, sa.idx))
     REG.trig_cache[k] = r
     return r
 
